@@ -5,7 +5,7 @@
 use std::collections::HashMap;
 use std::io::Read;
 
-use pgp::composed::{Deserializable, Message, MessageBuilder};
+use pgp::composed::{Message, MessageBuilder};
 use pgp::crypto::aead::{AeadAlgorithm, ChunkSize};
 use pgp::crypto::hash::HashAlgorithm;
 use pgp::crypto::sym::SymmetricKeyAlgorithm;
@@ -381,7 +381,7 @@ pub fn run(cases_path: &str, out_path: &str, tier: &str, seed: u64) {
         let cipher = c["cipher"].as_u64().unwrap();
         let aead = c["aead"].as_u64().unwrap();
         let has_esk = c["has_esk"] == true;
-        let (keylen, bs) = keylen_bs(cipher);
+        let (_keylen, bs) = keylen_bs(cipher);
         let pw = password(pi);
         let hash_id = [8u8, 10, 9, 11][(i + pi) % 4];
         let spec = s2k_spec_bytes(s2k_kind, hash_id, [0u8, 17, 96, 33][(i + pi) % 4], seed ^ (i * 31 + pi) as u64);
